@@ -136,6 +136,18 @@ def threshold_cases(gen, first_id, rng, quick):
         tables = [{"nrows": nr, "cols": [tc("tk", "tok", t["pattern"], t["card"]), tc("tkr", "str", "small", "optional"), tc("s", "str", "small", "multi")]}
                   for nr in (40, 25)]
         add("index", tables, t["merge"], t)
+    # huge sparse tables (more than 16 blocks, whole blocks empty): direct read, select, range lookups, stack merge
+    huge = [c for c in gen if c["what"] == "huge"]
+    rng.shuffle(huge)
+    picked = [c for c in huge if c["a"] != c["b"]]
+    for k, h in enumerate(picked[:(3 if quick else 14)]):
+        kinds = [("u64", "optional"), ("str", "multi")] if k % 2 == 0 else [("i64", "multi"), ("ip", "optional")]
+        def hc(i, kind, card, rows):
+            return {"name": f"h{i}_{'n' if kind in ('u64', 'i64') else kind}", "kind": kind, "pattern": "linear" if kind in ("u64", "i64") else "small",
+                    "card": card, "present": "none", "density": 0, "rows": sorted(rows), "expect_type": {"u64": "i64"}.get(kind, kind)}
+        tables = [{"nrows": h["nrows"], "cols": [hc(i, kd, cd, h["rows_a"]) for i, (kd, cd) in enumerate(kinds)]},
+                  {"nrows": h["nrows"], "cols": [hc(i, kd, cd, h["rows_b"]) for i, (kd, cd) in enumerate(kinds)]}]
+        add("columnar", tables, {"order": "stack", "keep": 1000, "perm": "identity"}, h)
     # a completely filled 65,536-row block (and one row short of it), directly and after a stacked merge
     for t in [c for c in gen if c["what"] == "fullblock"]:
         n, b = t["count"], t["block"]
@@ -196,6 +208,10 @@ def describe(ctx, cases):
                 c = bad[0]
                 name = c["key"].split("|")[0]
                 sp = specs.get(name, {})
+                if c.get("panic") or c.get("error"):
+                    return (f"panic / error while reading a fast field column back ({unit[0].get('path')} path, {where} columnar, {e.get('nrows')} rows): column kind "
+                            f"{sp.get('kind')} pattern {sp.get('pattern')} cardinality {sp.get('card')}: {c.get('error', 'panic in the columnar reader')}",
+                            json.dumps({"column": c, "spec": {k: v for k, v in sp.items() if k != 'rows'}, "rows_with_values": sp.get("rows"), "merge": case.get("merge")})[:3000])
                 if case.get("below_min"):
                     return KF_BELOW_MIN, json.dumps({"column": {x: c[x] for x in c if x not in ("off",)}})[:3000]
                 if sp.get("pattern") == "imax_neg":
